@@ -475,6 +475,8 @@ class ElemEngine:
             return None
         if k == 'index' and tag(it[2]) == 'range' and not path:
             return self.iter_object(it[1], path)      # a sub-slice x[a..b] views x
+        if k == 'item' and not path:
+            return self.iter_object(it[2], ())        # a row / chunk handed out by an outer loop views the outer object
         return it
 
     # ------------------------------------------------------------------ closures
@@ -931,14 +933,24 @@ class ElemEngine:
                     return any(chain_touches(x) for x in it[2])
                 if tag(it) in ('index', 'field', 'deref', 'cast'):
                     return chain_touches(it[1] if tag(it) != 'cast' else it[2])
+                if tag(it) == 'item':
+                    return chain_touches(it[2])       # a row / chunk handed out by an outer loop
                 return False
             for s in f.stores():
                 r = s.target
                 depth = 0
+                fpath = []
                 while tag(r) in ('index', 'field', 'deref') and depth < 6:
+                    if tag(r) == 'field' and isinstance(r[2], int):
+                        fpath.append(r[2])
                     r = r[1]
                     depth += 1
                 if tag(r) == 'item' and chain_touches(r[2]):     # depth 0: `*item = ..` through a `&mut` item (references are transparent in terms)
+                    # which component of a zipped / enumerated item is written decides the object: (x, y) over a.iter_mut().zip(b)
+                    # stores into a through .0 only
+                    o = self.iter_object(r[2], tuple(reversed(fpath))) if _has_tuple_items(r[2]) else None
+                    if o is not None and tag(o) != 'item' and not same_obj(o):
+                        continue
                     add(self.ev(env, s.value))
             self._memo[mkey] = out
             return out
@@ -978,6 +990,15 @@ _CONTENT_PRESERVING = {'index_mut', 'deref_mut', 'set_len', 'iter_mut', 'swap', 
                        'swap_remove', 'drain', 'retain', 'dedup', 'into_iter', 'next', 'borrow_mut', 'split_first_mut', 'split_last_mut',
                        'push', 'extend', 'extend_from_slice', 'copy_from_slice', 'shrink_to_fit', 'windows', 'len', 'get_unchecked_mut',
                        'as_mut_ptr', 'select_nth_unstable_by', 'iter', 'rchunks_mut', 'split_mut'}
+
+
+def _has_tuple_items(it):
+    """does the iterator chain produce tuple items (zip / enumerate somewhere along it)?"""
+    while tag(it) == 'call' and it[2]:
+        if short(it[1]) in ('zip', 'enumerate'):
+            return True
+        it = it[2][0]
+    return False
 
 
 def _split_tuple_ty(t):
